@@ -5,6 +5,7 @@ exceptions) of hy.mangle(s), hy.unmangle(hy.mangle(s)) and
 hy.mangle(hy.unmangle(hy.mangle(s))) computed by the real functions.
 Oracle: closed form - no exception, and the last equals the first.
 """
+import functools
 import unicodedata
 
 from hv import mangle_gen as G
@@ -13,7 +14,7 @@ from hv.common import rng_for
 ID = "C33"
 LEVEL = "exploration"
 RULE = ("every code point 0..0x10FFFF (incl. surrogates) in the seven contexts c, ac, ca, acb, _c, -c, c- "
-        "(exhaustive, blocks of 256 code points sharded over the workers) plus random hostile dot-free names "
+        "(exhaustive, blocks of 256 code points sharded over the workers) plus random hostile names (15% dotted) "
         "mixing hyphens, underscores, underscore-like characters, X, hyx_/XfooX escapes, NFKC-changing "
         "characters, combining marks, unnamed code points. Names outside the premise (part after the leading "
         "underscores starts with hyx_) are skipped, not counted. Non-trivial = a name that hy.mangle changes. "
@@ -21,7 +22,7 @@ RULE = ("every code point 0..0x10FFFF (incl. surrogates) in the seven contexts c
         "random names (thorough: one key per batch after the first batches); exact number in "
         "coverage.names_changed.")
 FLOOR = {"quick": 20000, "thorough": 20000}
-BUDGET = {"quick": 40, "thorough": 420}
+BUDGET = {"quick": 45, "thorough": 420}
 CASE_TIMEOUT = 60
 NEEDS_EVENTS = True
 EXHAUSTIVE = {"quick": True, "thorough": True}
@@ -31,7 +32,7 @@ ASSUMPTIONS = ["CPython 3.12.1 unicodedata (Unicode 15.0)",
                "the premise 'does not start with hyx_' is read modulo the identifications mangling itself "
                "makes without escaping (hyphen = underscore, NFKC): hyx-a and a fullwidth-h 'hyx_a' are the "
                "Python identifier hyx_a and are skipped like hyx_a",
-               "dotted names are not in the domain (hy.unmangle is not documented to work part-wise)"]
+               "dotted names (dotted-identifier syntax) are in the domain, with the hyx_ premise read per part"]
 MANIFEST = {
     "text": "For every Unicode code point (0..0x10FFFF including surrogates) in seven positional contexts - "
             "exhaustively in both tiers - and for random hostile names, the real hy.mangle and hy.unmangle are "
@@ -41,7 +42,7 @@ MANIFEST = {
             "violation must disappear when only the offending characters are replaced by a plain letter). "
             "Exploration: held on the names run; the code-point sub-space is complete.",
     "note": "Trusted: CPython's unicodedata. Bounds: exhaustive only for the seven single-code-point "
-            "contexts; random names <= ~30 characters, no dots.",
+            "contexts; random names <= ~30 characters, 15% with dotted-identifier syntax.",
     "technique": "runtime monitoring: exhaustive code-point enumeration + random hostile names through the "
                  "real mangle/unmangle pair, closed-form round-trip oracle",
 }
@@ -49,6 +50,7 @@ MANIFEST = {
 RAND_BATCH = 250
 RAND_TOTAL = {"quick": 200_000, "thorough": 20_000_000}
 KEYED_BATCHES = 1600
+XFEAT_BATCH = {"quick": 1000, "thorough": 8000}
 
 KEY_X = "nfkc-after-escaping-makes-or-breaks-delimiter-X"
 
@@ -78,13 +80,25 @@ def gate(tot, classes, extra, tier):
 def cases(seed, tier, shard, nshards):
     for b in G.block_indices(shard, nshards):
         yield {"kind": "cp", "lo": b * G.BLOCK, "n": G.BLOCK}
+    # Random names. Names that carry the input feature of the recorded NFKC/X mechanism are collected
+    # into a few large batches of their own: ordinary batches then never violate on the unchanged tree,
+    # so the recorded mechanism cannot flood the worker's (capped) violation channel and hide a new one.
     nb = RAND_TOTAL[tier] // RAND_BATCH
+    xbuf = []
     for i in range(nb):
         if i % nshards != shard:
             continue
         rng = rng_for(seed, ID, shard, i)
-        names = [G.rand_plain_name(rng) for _ in range(RAND_BATCH)]
-        yield {"kind": "rand", "i": i, "keyed": i < KEYED_BATCHES, "names": names}
+        names = [G.rand_name(rng, 0.15) for _ in range(RAND_BATCH)]
+        plain = []
+        for s in names:
+            (xbuf if x_feature_chars(s) else plain).append(s)
+        yield {"kind": "rand", "i": i, "keyed": i < KEYED_BATCHES, "names": plain}
+        if len(xbuf) >= XFEAT_BATCH[tier]:
+            yield {"kind": "rand", "i": i, "xfeat": True, "keyed": i < KEYED_BATCHES, "names": xbuf}
+            xbuf = []
+    if xbuf:
+        yield {"kind": "rand", "i": nb, "xfeat": True, "keyed": False, "names": xbuf}
 
 
 def case_key(case):
@@ -96,7 +110,16 @@ def case_key(case):
 def domain(s):
     """None if the property speaks about `s`, else the reason it does not."""
     if "." in s and s.strip("."):
-        return "dotted"
+        # dotted-identifier syntax: optional leading dots, then non-empty parts; the premise
+        # applies to each part (hy.mangle, and since the fix 32c256b hy.unmangle, work part-wise)
+        parts = s.lstrip(".").split(".")
+        if not all(parts):
+            return "dotted-malformed"
+        for p in parts:
+            why = domain(p)
+            if why:
+                return why
+        return None
     ul = G.underscore_like()
     body = s.lstrip(ul)
     if body.startswith("hyx_"):
@@ -137,18 +160,19 @@ def roundtrip(mangle, unmangle, s):
     return m, None, 3
 
 
+@functools.lru_cache(maxsize=None)
+def _is_x_feature(c):
+    return (not c.isascii()) and ("X" in unicodedata.normalize("NFKC", c) or
+                                  not unicodedata.normalize("NFKC", "X" + c).startswith("X"))
+
+
 def x_feature_chars(s):
     """Characters through which the final NFKC step can create a delimiter X
     (compatibility characters whose normal form contains X) or destroy one
     (combining marks that compose with a preceding X)."""
-    out = set()
-    for c in set(s):
-        if c.isascii():
-            continue
-        if "X" in unicodedata.normalize("NFKC", c) or \
-                not unicodedata.normalize("NFKC", "X" + c).startswith("X"):
-            out.add(c)
-    return out
+    if s.isascii():
+        return set()
+    return {c for c in s if _is_x_feature(c)}
 
 
 def attribute(mangle, unmangle, s):
@@ -180,7 +204,7 @@ def run_case(case):
                        for cp in range(lo, lo + case["n"], 16))
     else:
         it = ((None, None, s) for s in case["names"])
-        classes.add("rand-batch")
+        classes.add("rand-batch-x-feature" if case.get("xfeat") else "rand-batch")
     hyx = hexesc = 0
     for ci, cp, s in it:
         why_not = domain(s)
